@@ -517,8 +517,24 @@ func runCase(c tcase) (res result) {
 				return opRes{E: "skip"}
 			}
 			return run(fmt.Sprintf("op %d OpenWriter", i), func() opRes {
+				// a writer on a data channel without its index ("index-less") writes against
+				// index samples that already exist: it starts at the first of them
+				start := tsBase + cs.tsN + 1
+				for _, k := range o.Chans {
+					if cs.kinds[k] == "d" {
+						has := false
+						for _, k2 := range o.Chans {
+							if cs.kinds[k2] == "i" {
+								has = true
+							}
+						}
+						if !has {
+							start = tsBase + 1
+						}
+					}
+				}
 				cfg := cesium.WriterConfig{
-					Start: telem.TimeStamp(tsBase + cs.tsN + 1), Mode: mode(o.Mode), Sync: new(true),
+					Start: telem.TimeStamp(start), Mode: mode(o.Mode), Sync: new(true),
 					ControlSubject: xcontrol.Subject{Key: fmt.Sprintf("w%d", o.W), Name: fmt.Sprintf("w%d", o.W)},
 				}
 				for _, k := range o.Chans {
